@@ -16,6 +16,11 @@ pub struct KnownEntry {
     pub description: String,
 }
 
+/// The subject tree: /repo. (VERIF_REPO is set by the lab tools only, to evaluate seeded changes on a scratch copy.)
+pub fn repo_root() -> std::path::PathBuf {
+    std::env::var("VERIF_REPO").map(Into::into).unwrap_or_else(|_| std::path::PathBuf::from("/repo"))
+}
+
 pub fn verif_root() -> std::path::PathBuf {
     std::env::var("VERIF_ROOT").map(Into::into).unwrap_or_else(|_| std::path::PathBuf::from("/verif"))
 }
